@@ -47,6 +47,15 @@ pub struct FaultState {
     pub fail_fsyncs: bool,
     /// Fail every write from now on.
     pub fail_writes: bool,
+    /// Answers on the io_uring path: (kind, index of the consultation of that kind).
+    /// b'I' the k-th io_uring_enter is interrupted (EINTR), b'E' it fails (EIO);
+    /// b'Q' the submission queue is full at the k-th push; b'C' the k-th completion
+    /// reaped reports an error, b'S' a short write.
+    pub uring_plan: Vec<(u8, usize)>,
+    /// consultations so far: enter, push, completion
+    pub uring_counts: [usize; 3],
+    /// the last io_uring_enter was reported as failed: the caller must not see completions
+    pub uring_hidden: bool,
 }
 
 /// Scheduling hooks are delegated to this trait object when present.
@@ -229,6 +238,10 @@ impl Handler for Session {
 
     fn wrote(&self, site: &'static str, offset: u64, data: &[u8]) {
         self.device_writes.fetch_add(1, Ordering::Relaxed);
+        if site == "uring" {
+            // queued in a submission-queue entry: the kernel owns these bytes from now on
+            crate::kledger::kernel_owns(data.as_ptr() as usize, data.len());
+        }
         if trace_io() {
             eprintln!("io: write {site} block {} +{} blocks", offset / 4096, data.len().div_ceil(4096));
         }
@@ -279,6 +292,29 @@ impl Handler for Session {
             "force_sync_io" => f & F_FORCE_SYNC != 0,
             "fast_poll" => f & F_FAST_POLL != 0,
             "fast_shutdown" => f & F_FAST_SHUTDOWN != 0,
+            "uring_cqe_hidden" => self.fault.lock().uring_hidden,
+            "uring_enter_intr" | "uring_enter_fail" | "uring_sq_full" | "uring_cqe_error" | "uring_cqe_short" => {
+                let mut f = self.fault.lock();
+                // the first name of each pair opens a new consultation, the second refers to the same one
+                let (kind, slot, opens) = match name {
+                    "uring_enter_intr" => (b'I', 0, true),
+                    "uring_enter_fail" => (b'E', 0, false),
+                    "uring_sq_full" => (b'Q', 1, true),
+                    "uring_cqe_error" => (b'C', 2, true),
+                    _ => (b'S', 2, false),
+                };
+                if opens {
+                    f.uring_counts[slot] += 1;
+                }
+                let index = f.uring_counts[slot].wrapping_sub(1);
+                let yes = f.enabled && f.uring_plan.contains(&(kind, index));
+                match kind {
+                    b'I' => f.uring_hidden = false,
+                    b'E' => f.uring_hidden = yes,
+                    _ => {}
+                }
+                yes
+            }
             _ => false,
         }
     }
@@ -326,6 +362,8 @@ impl Handler for Session {
             self.coordinator_rounds.fetch_add(1, Ordering::SeqCst);
         } else if name == "worker_begin" {
             self.worker_begin.fetch_add(1, Ordering::SeqCst);
+        } else if name == "uring_done" {
+            crate::kledger::completion_seen(a as usize);
         }
         if let Some(s) = self.sched() {
             s.note(name, a, b);
